@@ -11,6 +11,8 @@ from ..srcmodel import walk_local, norm, dotted, guards
 from . import common, families as F
 from .c08 import _inc
 
+from . import forward
+
 META = {
     'explanation': (
         "Range algebra of the two right-to-left unpacking loops (the range() "
@@ -23,7 +25,7 @@ META = {
         "the routing of every section match through SecUnpacker into one "
         "tract per element. Decides these clauses, not the expansion of a "
         "concrete list."),
-    'families': ['RX-LANG', 'RX-GROUPS', 'RANGE', 'SIB', 'PAIR', 'ROUTE'],
+    'families': ['RX-LANG', 'RX-GROUPS', 'RANGE', 'SIB', 'PAIR', 'ROUTE', 'FORWARD', 'DEADPARAM', 'SIB-DEFAULTS'],
 }
 
 
@@ -97,6 +99,8 @@ def check(ctx):
     unp = [f for f in ctx.repo.funcs.values() if f.module.name.endswith('unpack.unpackers')]
     if common.flag_drops(ctx, unp) == 0:
         ctx.ok('RX-FLAGS', 'unpackers: no compiled regex is re-applied by its bare pattern text')
+    ctx.attempt(forward.check_all, module_suffixes=('unpack.unpackers', 'tract.tract_parse', 'plssdesc.plss_parse'))
+    ctx.attempt(common.embedded_case_consistency, modules=('rgxlib.misc', 'rgxlib.sec', 'rgxlib.lots'))
 
 
 def _helpers(ctx, multisec, multilot):
